@@ -29,6 +29,23 @@ def run(ctx):
         ctx.finding(sig, "%s: N=%d members, R=%d, P=%d -> %s (%d such events)" % (sig, e["n"], e["r"], e["p"], json.dumps(e)[:300], len(by[sig])), {"event": e})
     ctx.log("%d placement events validated: %d failed checks" % (n, len(viols)))
     ctx.sample([e for e in evs if e["ev"] == "place" and e["n"] == 4 and e["p"] == 3 and e["r"] == 2][0])
+    # the whole path on a real server: DatasetManager.Create with a request that already carries partitions
+    import subprocess
+    node = ctx.go_build("cmd/anndbnode", "anndbnode")
+    api = ctx.go_build("cmd/api", "api")
+    atr = ctx.path("api-c16.ndjson")
+    try:
+        subprocess.run([api, node, ctx.path("apiw-c16"), atr, json.dumps(["create.ok", "create.withpartitions"])], stdout=subprocess.PIPE,
+                       stderr=subprocess.PIPE, timeout=600, env=vlib.goenv())
+    except subprocess.TimeoutExpired:
+        raise vlib.NoVerdict("api driver timed out")
+    aev = vlib.read_ndjson(atr)
+    if len(aev) != 2 or any(e["setup"] for e in aev):
+        raise vlib.NoVerdict("api driver did not run the creation classes: %s" % json.dumps(aev)[:300])
+    for e in aev:
+        if e["outcome"] != "ok" and e["alive"] == 1:
+            ctx.finding("PlacementInvalid@%s" % e["class"], "PlacementInvalid@%s: %s" % (e["class"], e["err"][:300]), {"event": e})
+    ctx.cov["real_server_creations"] = len(aev)
     st = {}
     mut = json.loads(json.dumps(evs[:40]))
     for e in mut:
